@@ -31,6 +31,8 @@ mod c01_decomp;
 mod c10_svm;
 #[cfg(kani)]
 mod c12_kmeans;
+#[cfg(kani)]
+mod c07_c08_linear;
 
 #[cfg(kani)]
 mod playback_slot;
